@@ -331,47 +331,80 @@ def r3_tokenizer_exits(ctx):
                 why = 'the buffer must be cut at the first declared terminator: (token, self.buffer) = self.buffer.split(self.seg_term, 1)'
             else:
                 v = n.value
+                # names that hold the rest of a cut at the first declared terminator:  tok, REST = self.buffer.split(self.seg_term, 1)
+                rests = {t_.elts[1].id for st_ in ast.walk(f) if isinstance(st_, ast.Assign) and len(st_.targets) == 1
+                         for t_ in [st_.targets[0]] if isinstance(t_, ast.Tuple) and len(t_.elts) == 2 and isinstance(t_.elts[1], ast.Name)
+                         and isinstance(st_.value, ast.Call) and A.call_target(st_.value) == ('self.buffer', 'split') and len(st_.value.args) == 2
+                         and path_of(st_.value.args[0]) == 'self.seg_term' and A.const(st_.value.args[1]) == 1}
+                # names whose value IS the buffer at this store: the statement before it in the block stored that name into the buffer
+                prev_alias = set()
+                blk_ = [b_ for o_ in ast.walk(f) for fld in ('body', 'orelse', 'finalbody') for b_ in [getattr(o_, fld, None)]
+                        if isinstance(b_, list) and n in b_]
+                if blk_ and blk_[0].index(n) > 0:
+                    pst = blk_[0][blk_[0].index(n) - 1]
+                    if isinstance(pst, ast.Assign) and len(pst.targets) == 1 and path_of(pst.targets[0]) == 'self.buffer' and isinstance(pst.value, ast.Name):
+                        prev_alias.add(pst.value.id)
                 if A.const(v) is None and isinstance(v, ast.Constant):
                     ok = f.name == '__init__'
+                elif isinstance(v, ast.Name) and v.id in rests and sum(1 for x in ast.walk(f) if isinstance(x, ast.Name) and x.id == v.id
+                                                                      and isinstance(x.ctx, ast.Store)) == 1:
+                    ok = True
                 elif isinstance(v, ast.Name):
                     ok = f.name == '__init__' and any(isinstance(x, ast.Subscript) and path_of(x.value) == v.id for x in ast.walk(f))
-                elif isinstance(v, ast.BinOp) and isinstance(v.op, ast.Add) and path_of(v.left) == 'self.buffer':
+                elif isinstance(v, ast.BinOp) and isinstance(v.op, ast.Add) and (path_of(v.left) == 'self.buffer' or path_of(v.left) in prev_alias):
                     ok = path_of(v.right) in rv or (isinstance(v.right, ast.Call) and A.call_target(v.right)[1] == 'read')
                 why = 'the buffer is overwritten: unconsumed input would be lost'
             yield Ob(key, ok, ctx.loc('rawx12file', n), '' if ok else why)
     # the token handed out is the part before the terminator, only stripped of leading line breaks
     ys = [x for x in ast.walk(fn) if isinstance(x, ast.Yield)]
+    toks = {t_.elts[0].id for st_ in ast.walk(fn) if isinstance(st_, ast.Assign) and len(st_.targets) == 1
+            for t_ in [st_.targets[0]] if isinstance(t_, ast.Tuple) and len(t_.elts) == 2 and isinstance(t_.elts[0], ast.Name)
+            and isinstance(st_.value, ast.Call) and A.call_target(st_.value) == ('self.buffer', 'split')}
     for y in ys:
-        ok = path_of(y.value) == 'line'
+        ok = path_of(y.value) in toks
         yield Ob('rawx12file:RawX12File.__iter__ yields the token', ok, ctx.floc(fn, y), '' if ok else 'yields %s' % norm(y.value))
     # the header read retries until ISA_LEN or end of stream
     init = ctx.func('rawx12file', 'RawX12File.__init__')
-    gi = ctx.cfg(init)
-    rv = _read_vars(init)
-    wi = _witness_edges(gi, rv)
-    loops = [n for n in gi.nodes if n.kind in ('loophead',)]
     ok = False
     why = 'the header is read once; a stream that returns fewer than ISA_LEN characters per read is reported as a short ISA'
-    for h in loops:
-        b = _loop_nodes(gi, h)
-        has_read = any(A.call_target(c)[1] == 'read' for nid in b for x in gi.walk_exprs(gi.nodes[nid]) for c in ([x] if isinstance(x, ast.Call) else []))
-        if not has_read:
-            continue
-        ex = [(gi.nodes[nid], l, s) for nid in b for s, l in gi.nodes[nid].succ if l != 'exc' and s.id not in b]
-        good = True
-        for n, l, s in ex:
-            if (n.id, l) in wi:
-                continue
-            if n.kind == 'test' and 'len(' in norm(n.ast) and 'ISA_LEN' in norm(n.ast):
-                continue
-            if n.kind in ('break',):
-                # a break must be dominated by a witness edge inside the loop
-                p = gi.find_path(h, lambda x: x is n, edge_ok=lambda a, lab, bb: (a.id, lab) not in wi and bb.id in b)
-                if p is None:
-                    continue
-            good = False
-        if good:
-            ok = True
+    isa_len = A.module_constants(ctx.mod('rawx12file').tree).get('ISA_LEN', 106)
+    for part in ctx.region('rawx12file', 'RawX12File.__init__'):
+      gi = ctx.cfg(part)
+      rv = _read_vars(part)
+      wi = set(_witness_edges(gi, rv))
+      # a test on the length read so far: the outcome it has once ISA_LEN characters are there is a legitimate way out
+      for nd_ in gi.nodes:
+          if nd_.kind == 'test' and 'len(' in norm(nd_.ast):
+              lens = [c_ for c_ in ast.walk(nd_.ast) if isinstance(c_, ast.Call) and path_of(c_.func) == 'len' and c_.args and isinstance(c_.args[0], ast.Name)]
+              if len({c_.args[0].id for c_ in lens}) == 1:
+                  try:
+                      full = bool(A.ev(nd_.ast, {lens[0].args[0].id: 'x' * isa_len, 'ISA_LEN': isa_len}))
+                      short = bool(A.ev(nd_.ast, {lens[0].args[0].id: 'x' * (isa_len - 1), 'ISA_LEN': isa_len}))
+                  except (A.NotClosed, TypeError):
+                      continue
+                  if full != short:
+                      wi.add((nd_.id, 'T' if full else 'F'))
+      loops = [n for n in gi.nodes if n.kind in ('loophead',)]
+      for h in loops:
+          b = _loop_nodes(gi, h)
+          has_read = any(A.call_target(c)[1] == 'read' for nid in b for x in gi.walk_exprs(gi.nodes[nid]) for c in ([x] if isinstance(x, ast.Call) else []))
+          if not has_read:
+              continue
+          ex = [(gi.nodes[nid], l, s) for nid in b for s, l in gi.nodes[nid].succ if l != 'exc' and s.id not in b]
+          good = True
+          for n, l, s in ex:
+              if (n.id, l) in wi:
+                  continue
+              if n.kind == 'test' and 'len(' in norm(n.ast) and 'ISA_LEN' in norm(n.ast):
+                  continue
+              if n.kind in ('break', 'return'):
+                  # a break / return must be dominated by a witness edge inside the loop
+                  p = gi.find_path(h, lambda x: x is n, edge_ok=lambda a, lab, bb: (a.id, lab) not in wi and bb.id in b)
+                  if p is None:
+                      continue
+              good = False
+          if good:
+              ok = True
     yield Ob('rawx12file:RawX12File.__init__ header read retries until ISA_LEN or end of stream', ok, ctx.floc(init), '' if ok else why)
 
 
